@@ -193,6 +193,20 @@ deriving Repr, DecidableEq
 def closeCodeOk (code : Nat) : Bool :=
   !(code > 4999 || (code < 3000 && !Gen.C12.allowedCloseCodes.contains code))
 
+/-- the per-message inflate of `_handle_frame` (`if compressed:` … `decompress_sync(…, max+1)`,
+post-check); `COMPRESSED_NOT_SET = -1` is truthy, but a data frame always sets the flag -/
+def inflateMsg (c : Cfg) (p2 : K Z) (compressed : Option Bool) (assembled : Bytes) :
+    Except (K Z × Err) (K Z × Bytes) :=
+  if compressed ≠ some false then
+    let maxLen := if c.maxMsgSize ≠ 0 then c.maxMsgSize + 1 else 0
+    match Z.inflate p2.z (assembled ++ Gen.C12.deflateTrailing) maxLen with
+    | (z', .ok out) =>
+      if c.maxMsgSize ≠ 0 ∧ out.length > c.maxMsgSize then .error ({ p2 with z := z' }, E1009)
+      else .ok ({ p2 with z := z' }, out)
+    | (z', .tooMany) => .error ({ p2 with z := z' }, E1009)
+    | (z', .error) => .error ({ p2 with z := z' }, .zlib)
+  else .ok (p2, assembled)
+
 def handleData (c : Cfg) (p : K Z) (fin : Bool) (opcode : Nat) (payload : Bytes)
     (compressed : Option Bool) : Except (K Z × Err) (K Z) :=
   if opcode = 0 ∧ p.opcode = none then .error (p, E1002)
@@ -206,18 +220,7 @@ def handleData (c : Cfg) (p : K Z) (fin : Bool) (opcode : Nat) (payload : Bytes)
     let p1 : K Z := if opcode = 0 then { p with opcode := none } else p
     let assembled := p1.partialMsg ++ payload
     let p2 : K Z := { p1 with partialMsg := [] }
-    -- `if compressed:` (COMPRESSED_NOT_SET = -1 is truthy, but a data frame always sets it)
-    let inflated : Except (K Z × Err) (K Z × Bytes) :=
-      if compressed ≠ some false then
-        let maxLen := if c.maxMsgSize ≠ 0 then c.maxMsgSize + 1 else 0
-        match Z.inflate p2.z (assembled ++ Gen.C12.deflateTrailing) maxLen with
-        | (z', .ok out) =>
-          if c.maxMsgSize ≠ 0 ∧ out.length > c.maxMsgSize then .error ({ p2 with z := z' }, E1009)
-          else .ok ({ p2 with z := z' }, out)
-        | (z', .tooMany) => .error ({ p2 with z := z' }, E1009)
-        | (z', .error) => .error ({ p2 with z := z' }, .zlib)
-      else .ok (p2, assembled)
-    match inflated with
+    match inflateMsg c p2 compressed assembled with
     | .error e => .error e
     | .ok (p3, merged) =>
       if opc = 1 then
